@@ -2,6 +2,7 @@ package checks
 
 import (
 	"fmt"
+	"strings"
 
 	"github.com/openziti/storage/boltz"
 	"go.etcd.io/bbolt"
@@ -50,6 +51,38 @@ func C06(tier string) int {
 		cfg2.MaxDepth, cfg2.MaxTrans = 4, 20_000_000
 	}
 	runE1(rep, k2, cfg2)
+
+	// link collections to closure (two entities per side): <any link operation>; <delete> in one
+	// transaction - the deleted entity's link buckets were then written earlier in the same transaction
+	for _, ls := range []*linkScenario{
+		newLinkScenario("links 2x2, (op; delete) per tx", []string{"#a1", "#a2"}, []string{"#b1", "#b2"}, true, false, 0),
+		newLinkScenario("ref-counted 2x2 counts<=2, (op; delete) per tx", []string{"#a1", "#a2"}, []string{"#b1", "#b2"}, false, true, 2),
+	} {
+		ls := ls
+		lprogs := explore.SingleOps(len(ls.Ops()))
+		for a := range ls.Ops() {
+			for d, dop := range ls.Ops() {
+				if strings.HasPrefix(dop.Name, "delete") {
+					lprogs = append(lprogs, []int{a, d})
+				}
+			}
+		}
+		runE1(rep, ls, explore.Config{Programs: lprogs, SkipRejectedPrefix: true, PerTransition: func(tx *bbolt.Tx, pre *explore.State, program []int, post *dump.Tree, m explore.Model) error {
+			last := ls.Ops()[program[len(program)-1]].Name
+			if !strings.HasPrefix(last, "delete") {
+				return nil
+			}
+			id := last[strings.Index(last, "(")+1 : len(last)-1]
+			rep.Count("deletes_checked", 1)
+			if err := boltz.ValidateDeleted(tx, id); err != nil {
+				return fmt.Errorf("ValidateDeleted(%s): %v", id, err)
+			}
+			if where := post.ContainsBytes([]byte(id)); len(where) > 0 {
+				return fmt.Errorf("id %s still occurs after delete: %v", id, where)
+			}
+			return nil
+		}})
+	}
 	return rep.Finish()
 }
 
